@@ -177,6 +177,58 @@ def g2_draw_table(ctx):
                       f"draw over `{pop}` has replace={g[1]}, size={g[2]}; documented replace={rep}, size={size}")
 
 
+def _lengths_by_cases(f, pm):
+    """The same bookkeeping in any arrangement: the statements of the per-bloc block that bind number_to_sample / number_tied
+    before the sampling loop are read through case by case; with BL = self.ballot_length and NZ = len(non_zero_cands) the
+    cases must be  NZ < BL: sample NZ, tie BL - NZ   and   otherwise: sample BL, no tie."""
+    from vk.loopsym import IterationExec, Unsupported
+    from vk.algebra import NotClosedForm, spec_rat
+    NAMES = {"number_to_sample", "number_tied"}
+    sites = [n for n in astx.walk_own(f.node) if isinstance(n, ast.Assign) and isinstance(n.targets[0], ast.Name) and n.targets[0].id in NAMES]
+    if not sites:
+        return False
+    # the block of the bloc loop that holds them
+    blk = None
+    for lp in (n for n in astx.walk_own(f.node) if isinstance(n, ast.For)):
+        if all(any(x is st for b in lp.body for x in ast.walk(b)) for st in sites) and not any(isinstance(b, ast.For) and any(x is st for x in ast.walk(b) for st in sites) for b in lp.body):
+            blk = lp.body
+    if blk is None:
+        return False
+    stmts = []
+    for b in blk:
+        if isinstance(b, (ast.For, ast.While)):
+            break
+        if any(x is st for x in ast.walk(b) for st in sites):
+            stmts.append(b)
+    ex = IterationExec(f.node, stmts, lists=set())
+    try:
+        outs = ex.run()
+    except Unsupported:
+        return False
+    rn = lambda e: "BL" if astx.u(e) == "self.ballot_length" else ("NZ" if astx.u(e) == "len(non_zero_cands)" else None)
+    N = Normalizer(None, inline=False, int_atoms=lambda a: True, rename=rn)
+    short = bool_key(spec_guard("NZ < BL", int_atoms=lambda a: True))
+    seen = set()
+    try:
+        for o in outs:
+            k = bool_key(N.conj(o.conds)) if o.conds else "true"
+            nts, tied = o.state.get("number_to_sample"), o.state.get("number_tied")
+            if nts is None or tied is None:
+                return False
+            if k == short:
+                if not (N.rat(nts).equals(spec_rat("NZ")) and N.rat(tied).equals(spec_rat("BL - NZ"))):
+                    return False
+            elif k == "not " + short or k == bool_key(spec_guard("not (NZ < BL)", int_atoms=lambda a: True)):
+                if not (N.rat(nts).equals(spec_rat("BL")) and isinstance(tied, ast.Constant) and tied.value is None):
+                    return False
+            else:
+                return False
+            seen.add(k == short)
+    except NotClosedForm:
+        return False
+    return seen == {True, False}
+
+
 def g6_short_pl_lengths(ctx):
     """short Plackett-Luce: the sampled prefix and the zero-support tie together have exactly ballot_length candidates."""
     prog = ctx.prog
@@ -191,6 +243,8 @@ def g6_short_pl_lengths(ctx):
         and d2.get("number_tied = number_to_sample - len(non_zero_cands)") == short and d2.get("number_tied = None") == set()
     order = [astx.u(s) for s in astx.walk_own(f.node) if isinstance(s, ast.Assign) and astx.u(s.targets[0]) in ("number_tied", "number_to_sample") and astx.u(s.value) != "None"]
     good = good and order == ["number_to_sample = self.ballot_length", "number_tied = number_to_sample - len(non_zero_cands)", "number_to_sample = len(non_zero_cands)"]
+    if not good:
+        good = _lengths_by_cases(f, pm)
     # the length that generate_profile reads is the one the caller asked for: the constructor stores its argument as it is
     init = prog.find_func("short_name_PlackettLuce.__init__")
     st = [n for n in astx.walk_own(init.node) if isinstance(n, ast.Assign) and any(astx.u(t) == "self.ballot_length" for t in n.targets)]
@@ -501,6 +555,7 @@ FAULTS = [
 PI = "src/votekit/pref_interval.py"
 FAULTS += [
     ("short PL length capped by the supported candidates", [(BGP, "        super().__init__(**data)\n        self.ballot_length = ballot_length\n", "        super().__init__(**data)\n        self.ballot_length = min(ballot_length, len(self.candidates))\n")], "C14.G6"),
+    ("short PL tie length computed after the sample length was cut", [(BGP, "            if len(non_zero_cands) < number_to_sample:\n                number_tied = number_to_sample - len(non_zero_cands)\n                number_to_sample = len(non_zero_cands)\n", "            if len(non_zero_cands) < number_to_sample:\n                number_to_sample = len(non_zero_cands)\n                number_tied = number_to_sample - len(non_zero_cands)\n")], "C14.G6"),
     ("per-bloc lengths hoisted", [(BGP, "            # if there aren't enough non-zero supported candidates,\n            # include 0 support as ties\n            number_to_sample = self.ballot_length\n            number_tied = None\n", ""), (BGP, "        for bloc in self.blocs:\n            # number of voters in this bloc\n            num_ballots = ballots_per_block[bloc]\n            ballot_pool = [Ballot()] * num_ballots\n            non_zero_cands", "        number_to_sample = self.ballot_length\n        number_tied = None\n        for bloc in self.blocs:\n            # number of voters in this bloc\n            num_ballots = ballots_per_block[bloc]\n            ballot_pool = [Ballot()] * num_ballots\n            non_zero_cands")], "C14.G5"),
     ("mcmc helper arguments swapped", [(BGP, "        self, num_ballots, pref_interval, seed_ballot, zero_cands={}, verbose=False\n", "        self, num_ballots, pref_interval, seed_ballot, verbose=False, zero_cands={}\n"), (BGP, "                seed_ballot,\n                zero_cands=zero_cands,\n                verbose=verbose,\n            )", "                seed_ballot,\n                zero_cands,\n                verbose,\n            )")], "C14.G5"),
     ("zero cands accumulated across blocs", [(BGP, "        pref_profile_by_bloc = {}\n\n        for i, bloc in enumerate(self.blocs):\n            # number of voters in this bloc\n            num_ballots = ballots_per_block[bloc]\n            ballot_pool = [Ballot()] * num_ballots\n            pref_intervals = self.pref_intervals_by_bloc[bloc]\n            zero_cands = set(\n                it.chain(*[pi.zero_cands for pi in pref_intervals.values()])\n            )\n\n            slate_to_non_zero_candidates",
@@ -509,5 +564,6 @@ FAULTS += [
     ("combine skips zero sets of zero-share slates", [(PI, "    zero_cands = frozenset.union(*[pi.zero_cands for pi in intervals])", "    zero_cands = frozenset.union(*[pi.zero_cands for pi, prop in zip(intervals, proportions) if prop > 0] or [frozenset()])")], "C14.G5"),
 ]
 BENIGN = [
+    ("short PL lengths as a two-way branch", [(BGP, "            number_to_sample = self.ballot_length\n            number_tied = None\n\n            if len(non_zero_cands) < number_to_sample:\n                number_tied = number_to_sample - len(non_zero_cands)\n                number_to_sample = len(non_zero_cands)\n", "            if len(non_zero_cands) < self.ballot_length:\n                number_to_sample = len(non_zero_cands)\n                number_tied = self.ballot_length - len(non_zero_cands)\n            else:\n                number_to_sample = self.ballot_length\n                number_tied = None\n")]),
     ("AC voter types fixed by the constructor, shares by a loop of appends, same order", _ac_types_in_constructor(["bloc", "cross"])),
 ]
